@@ -23,7 +23,8 @@ RULE = ("AsyncServiceInfo.async_request on a real Zeroconf in virtual time. Cach
         "query, judged against a snapshot of the cache taken at the send instant: SRV/TXT asked only while no answer with more "
         "than half its TTL is held (and always then, in QU queries), address questions go to the SRV target the object knew at "
         "that moment; all address accessors (by version, parsed, scoped, dns_addresses) are views of one duplicate-free list. "
-        "Records in one datagram arrive in shuffled order (addresses before the SRV that makes them relevant). Distinct "
+        "a lookup that returns False is also judged from the cache alone (the SRV received last and a live address of its target, both "
+        "received before the return => it had what it needed). Records in one datagram arrive in shuffled order (addresses before the SRV that makes them relevant). Distinct "
         "= (cache-state tuple, arrival bucket, timeout, forced type, outcome) classes.")
 ASSUMPTIONS = ["the read instant of a record is observed by wrapping ServiceInfo._process_record_threadsafe from the harness (no source change)",
                "at most one SRV record per instance is cached at a time (target changes arrive with the cache-flush bit)"]
@@ -37,7 +38,7 @@ ADDRS = {"A": [b"\x0a\x00\x00\x05", b"\x0a\x00\x00\x06"], "AAAA": [b"\xfe\x80" +
 def floors(tier):
     q = tier == "quick"
     return {"c18.deadline": 8000 if q else 1000000, "c18.model": 8000 if q else 1000000, "c18.hook_reads": 15000 if q else 2000000, "c18.transmissions": 8000 if q else 1000000,
-            "c18.views": 8000 if q else 1000000, "c18.questions.queries": 5000 if q else 600000}
+            "c18.views": 8000 if q else 1000000, "c18.completeness": 1500 if q else 150000, "c18.questions.queries": 5000 if q else 600000}
 
 
 def plan(tier, seed):
@@ -224,13 +225,6 @@ def analyse(res: Result, sim: simnet.Sim, sc: Dict[str, Any], out: Dict[str, Any
         viol("c18.deadline", "returned_after_deadline", "async_request(timeout=%d) returned after %.1f ms" % (sc["timeout"], ret - S))
     if bool(result) != bool(f["addrs"]):
         viol("c18.deadline", "result_vs_addresses", "returned %r with %d address(es) known" % (result, len(f["addrs"])), result=bool(result))
-    if not result:
-        # not demanded by the statement (it speaks of what the lookup knows), but worth counting: did it give up while the
-        # cache held an unexpired SRV and an unexpired address of that SRV's host?
-        car = out["cache_at_ret"]
-        live_srv = [x for x in car.get(NAME.lower(), []) if x[0][0] == "SRV" and x[1] + 1000.0 * x[2] > ret]
-        if any(y[0][0] in ("A", "AAAA") and y[1] + 1000.0 * y[2] > ret for x in live_srv for y in car.get(x[0][2][3], [])):
-            res.obs("lookup_failed_although_cache_sufficed_at_return")
     # ---- replay the reads through the model
     reads = out["reads"]
     res.mon("c18.hook_reads", len(reads))
@@ -273,6 +267,34 @@ def analyse(res: Result, sim: simnet.Sim, sc: Dict[str, Any], out: Dict[str, Any
     universe = [((i[0], i[1].lower(), tuple(x.lower() if isinstance(x, str) else x for x in i[2])), c, ttl) for i, c, ttl in universe]
     # (a cache-flush record re-stamps every *other* cached record of that name/type - even one that had already expired - to
     #  live one more second, so this independent cross-check only applies when no flush-bearing record of that kind arrived)
+    if not result:
+        # 'succeeds iff by then it knows an address': what the instance was handed it knows.  Judged from deliveries and the
+        # cache alone (the hook-based replay above cannot see a record that never reaches the info object).  The SRV record
+        # delivered last (any TTL; a tie within one instant is ambiguous and only counted) is the one a lookup follows; if it
+        # is alive in the cache at the return exactly as delivered, and an address record of its target is alive in the cache
+        # exactly as delivered at least 1 ms before the return, the lookup had what it needed.  'Exactly as delivered'
+        # excludes copies that a cache-flush record re-stamped (created then no longer means received).
+        res.mon("c18.completeness")
+        car = out["cache_at_ret"]
+        srv_events = sorted([(c, i, ttl) for i, c, ttl in universe if i[0] == "SRV" and i[1] == key and c <= ret - 1.0], key=lambda e: e[0])
+        if srv_events and srv_events[-1][2] > 0 and not any(abs(e[0] - srv_events[-1][0]) < 1e-6 for e in srv_events[:-1]):
+            c_srv, i_srv, _ttl = srv_events[-1]
+            target = i_srv[2][3]
+
+            def norm(x):
+                return (x[0][0], x[0][1].lower(), tuple(v.lower() if isinstance(v, str) else v for v in x[0][2]))
+            srv_alive = any(norm(x) == i_srv and abs(x[1] - c_srv) < 1e-6 and x[1] + 1000.0 * x[2] > ret for x in car.get(key, []))
+            addr_deliveries = {(i, c) for i, c, ttl in universe if i[0] in ("A", "AAAA") and i[1] == target and ttl > 0 and c <= ret - 1.0}
+            addrs = [y for y in car.get(target, []) if y[0][0] in ("A", "AAAA") and y[1] + 1000.0 * y[2] > ret
+                     and any(norm(y) == i and abs(y[1] - c) < 1e-6 for i, c in addr_deliveries)]
+            if srv_alive and addrs:
+                viol("c18.completeness", "lookup_failed_although_cache_sufficed", "async_request returned False after %.0f ms although the SRV record delivered last "
+                     "(%r, %.0f ms after the start) is cached and so are address record(s) of its target, delivered %s ms after the start" % (
+                         ret - S, i_srv[2], c_srv - S, [round(y[1] - S) for y in addrs]))
+            else:
+                res.cls("completeness", "judged-insufficient")
+        elif srv_events:
+            res.obs("completeness_not_judged_srv_tie_or_goodbye")
     flushed_kinds = {(ident[0], ident[1].lower()) for a in sc["arrivals"] if S + a["off"] <= ret + 1e-6 for ident, ttl, fl in a.get("_recs", []) if fl}
     if result:
         for addr in f["addrs"]:
